@@ -2658,13 +2658,13 @@ def transform_compressible(items, constants, labels):
             return imm >= lo and imm <= hi
         return inner
 
-    # labels are still moving while this pass runs: an absolute (non pc-relative)
-    # immediate may only steer compression if it does not depend on any label
+    # labels and positions are still moving while this pass runs: an absolute (non pc-relative)
+    # immediate may only steer compression if it depends neither on a label nor on the
+    # position of the instruction itself (%offset of a constant)
     def ImmIsStatic():
         def inner(i, p, e):
             try:
-                i.imm.eval(p, constants, i.line)
-                return True
+                return i.imm.eval(p, constants, i.line) == i.imm.eval(p + 2, constants, i.line)
             except AssemblerError:
                 return False
         return inner
